@@ -77,6 +77,12 @@ CLAIMED = {
         "dec_classified (total; only invalid / mismatch / badsum / ok — never DataTooLong), dec_err_invalid_iff (InvalidFrame iff the string is not ':' + even number >= 10 of hex digits of either case + optional single CR LF, stated declaratively as Shape), dec_of_shape (length test before checksum test, with the reported numbers), dec_err_mismatch_iff, dec_err_badsum_iff, dec_ok_iff (accepted iff the numeric fields are payload f ++ [lrc]), reenc (re-encoding gives ':' + the same digits upper-cased) — for all byte strings. Tie: Frame::from_bytes vs the model on every string of length <= 3 (thorough 4) over a 19-symbol structural alphabet, those strings spliced into seed frames, doubled / bare terminators, two frames back to back, and random strings and multi-edits up to 600 bytes over all byte values; an independent Rust hand parser is the third opinion.",
         "Rust regex semantics ($ = end of haystack only, [[:xdigit:]] ASCII, (?x) mode) are checked by the differential run, not proved.",
         "§6 C03"),
+    "C02": (
+        "Lean 4 theorems on a hand-written model + differential correspondence model vs code; arithmetic on the LRC (one changed byte / two changed bytes cannot keep the wrapping sum at zero; 15*(x-y) = 0 mod 256 forces x = y for nibbles) + structural case analysis of every position",
+        "For every well-formed frame, both encodings (with / without CRLF) and EVERY position: subst_safe (any replacement byte: error or exactly the original frame), delete_rejected, dup_rejected (always an error), swap_safe (adjacent transposition: error or the original frame), prefix_safe (any truncation: error or the original frame), plus mismatch_never_ok and badsum_never_ok for every byte string. Tie: Frame::from_bytes vs the model on the complete fault set (every position x 256 replacement bytes on the full-substitution seeds, 35 structural values otherwise; every deletion, duplication, adjacent swap, proper prefix) of seed frames incl. frame-in-frame seeds whose data embeds another frame; oracle: the damaged string must be rejected or decode to the original.",
+        "Theorems are about the hand-parser model; that the regex-based decoder equals it is the differential run (C03's exhaustive short-string enumeration is part of that tie).",
+        "§6 C02"),
+
     "C15": (
         "Lean 4 theorems on a hand-written model + differential correspondence model vs code; std I/O modelled from its documented contracts",
         "read_consumes_line (consumes up to and including the first LF and not one byte more, result = decoding of that line, for every interleaving of interrupted reads), read_interrupt_invariant, reads_back_to_back, read_error_surfaces, read_eof, write_delivers (any schedule of partial accepts and interrupts), write_only_the_encoding (delivered bytes are always a prefix of the encoding; success only when all delivered), writeAll_error_surfaces. Tie: Frame::read / Frame::write on instrumented Read / Write: every composition of a 13-byte stream into read sizes, every placement of <= 2 interrupts, error / zero-length read at every call index, 1..3 frames + trailing bytes with random fragmentation, leftover bytes compared; the same for writes.",
